@@ -162,6 +162,11 @@ def r_close_order(ctx: Ctx, rule: str):
                 rep.ob(rule, f"the wait for pool tasks starts only after the wait for the spawners in {need} has completed", bool(doms) and dominated_by_completion(g, _copies(g, doms), t), node=t)
         setn = ctx.nodes(f, lambda n: any(e.kind == "set" and e.path.endswith("._closed") for e in ctx.eff.of_node(n)))
         rep.floor(rule, "_closed.set() in gather_and_close", len(ctx.distinct_sites(setn)), 1)
+        # every way gather_and_close returns normally has closed the pool ("afterwards the pool is closed ... every later spawn request raises
+        # PoolIsClosed"): an early return for an 'empty' pool leaves it merely locked - unlock() re-opens it
+        rep.ob(rule, "every normal return of gather_and_close is preceded by _closed.set()", bool(setn) and dominated_by_completion(g, setn, g.exit), func=f,
+               construct="normal exits of gather_and_close", detail="" if (setn and dominated_by_completion(g, setn, g.exit)) else
+               "a path returns without closing: the pool stays locked but open, and after unlock() it accepts requests again")
         for s in ctx.distinct_sites(setn):
             for fld in sorted(TASK_FIELDS | SPAWNER_FIELDS):
                 doms = [x for x in gs if fld in gather_fields(ctx, f, x)]
